@@ -86,7 +86,7 @@ def gen_refcode(rng, creator, pool=None):
     else:
         head = rng.choice(["B1", "B2", "A7", "C1"])
     comp = rng.choice(["8D", "E5", "20", "75", "9A", "A1"])
-    return head + rng.choice(["", ""]) + comp + "%04X" % rng.randrange(0x10000)
+    return head + comp + "%04X" % rng.randrange(0x10000) + rng.choice(["", "", "", "", " LIC", " 00000001"])
 
 
 def gen_callout(rng):
@@ -117,7 +117,7 @@ def gen_callout(rng):
                     "sn": _ascii(rng, rng.randint(1, 12)),
                     "name": _ascii(rng, rng.choice([1, 4, 8, 13]))}  # a zero-length name trips get_mem(0) (DESIGN §10)
     if "mru" in which:
-        n = rng.randint(0, 4)
+        n = rng.choice([0, 1, 2, 3, 4, 15])
         c["mru"] = {"hi": rng.choice([0, 0x10, 0xF0]),
                     "items": [[rng.randrange(1 << 32), rng.randrange(1 << 32)] for _ in range(n)],
                     "reserved": rng.randrange(1 << 32)}
@@ -127,6 +127,8 @@ def gen_callout(rng):
 def gen_src(rng, sid, creator, refcode_pool=None, callouts=None, comp=None):
     rc = gen_refcode(rng, creator, refcode_pool)
     ncall = rng.choice([0, 0, 1, 2, 3]) if callouts is None else callouts
+    if callouts is None and rng.random() < 0.04:
+        ncall = rng.randint(6, 10)          # the format allows up to 10 callouts
     return {"kind": "src", "id": sid, "ver": 1, "subtype": rng.choice([0, 1]),
             "comp": comp if comp is not None else rng.choice([0x2000, 0x1000, 0xE500, 0x8D00, 0x3500]),
             "srcver": rng.choice([2, 2, 1]),
@@ -174,8 +176,10 @@ def _json_value(rng, depth=0):
 
 
 def gen_builtin_json(rng):
-    top = rng.choice(["dict", "dict", "dict", "list", "str", "int"])
-    if top == "dict":
+    top = rng.choice(["dict", "dict", "dict", "list", "str", "int", "falsy"])
+    if top == "falsy":
+        v = rng.choice([0, 0.0, False, "", [], None, {}])
+    elif top == "dict":
         v = {("K%d " % i) + _ascii(rng, 4): _json_value(rng, 1) for i in range(rng.randint(1, 4))}
     elif top == "list":
         v = [_json_value(rng, 1) for _ in range(rng.randint(0, 4))]
@@ -231,7 +235,7 @@ def gen_ud(rng, creator, targets=None):
             sec_creator = tc
         sec["comp"] = comp
     else:
-        sec["comp"] = rng.choice([0x2000, 0x2000, 0x1000, 0xE500, 0x2C00, 0x0100, 0xABCD, 0x0A0B])
+        sec["comp"] = rng.choice([0x2000, 0x2000, 0x1000, 0xE500, 0x2C00, 0x0100, 0xABCD, 0x0A0B, 0x8001, 0x41E9, 0x4142])
     if kind == "ed":
         sec["creator"] = sec_creator
     sec["payload"] = gen_payload(rng)
@@ -296,7 +300,7 @@ def gen_pel(rng, *, eid=None, plid=None, bmc_id=None, creator=None, want_class=N
     creator = creator or rng.choice(["O", "O", "O", "B", "H", "M", "T", "P", "S", "K", "L", "C"])
     sev, action = gen_class(rng, want_class)
     eid = gen_id(rng, id_magnitude) if eid is None else eid
-    r = {"creator": creator, "comp": rng.choice([0x2000, 0x1000, 0xE500, 0x2C00, 0x3100, 0x4242, 0x5052]),
+    r = {"creator": creator, "comp": rng.choice([0x2000, 0x1000, 0xE500, 0x2C00, 0x3100, 0x4242, 0x5052, 0x41E9]),
          "create": _bcd_time(rng), "commit": _bcd_time(rng),
          "bmc_id": rng.randrange(1, 100000) if bmc_id is None else bmc_id,
          "cssver": rng.choice([0, 1, 0x0102030405060708, rng.randrange(1 << 64)]),
